@@ -744,6 +744,9 @@ def recv_program():
     classes = [
         {"name": "K", "methods": [
             fn("meth", ["self", "p"], body("x")),
+            # a method that calls another method on its own receiver (K.run2 > k1.meth > x)
+            fn("run2", ["self", "p"], [["bind", "y", V], ["bind", "r", ["mcall", "self", "meth", [var("p")]]],
+                                       use("y", "r"), ["ret", var("y")]]),
             # a method that calls a plain function (call paths through a receiver: k1.run > helper > v)
             fn("run", ["self", "p"], [["bind", "x", V], ["bind", "r", ["call", "helper", [var("p")]]],
                                       use("x", "r"), ["ret", var("x")]]),
